@@ -18,12 +18,12 @@ static int hv(uint8_t c) { return (c & 0xf) + ((c >> 6) * 9); }
 extern "C" void harness_main()
 {
   UtilContext *uc = new UtilContext();
-  symx_assume(uc->set_cpu_by_name(CPUNAME) == 0);
+  symx_assume(uc->set_cpu_by_name(CPUNAME) == 1);
   const int bpa = uc->bytes_per_address;
   static const uint32_t addrs[4] = { 0x0, 0x20, 0xfffc, 0x12344 };
   uint32_t addr = addrs[symx_fork("addr", 4)];          // in address units of the CPU
   int asp = symx_fork("addr_spelling", 3);
-  int vsp = symx_fork("value_spelling", 2);             // decimal or 0x (an h-suffix on the last number re-reads earlier ones: see known finding)
+  int vsp = symx_fork("value_spelling", 3);             // decimal, 0x hex or h-suffix hex
   uint32_t v0 = symx_u32("v0"), v1 = symx_u32("v1");
   uint32_t mask = WIDTH == 8 ? 0xff : WIDTH == 16 ? 0xffff : 0xffffffffu;
   symx_assume(v0 <= mask && v1 <= mask);
